@@ -12,8 +12,8 @@
 #include <ufw/register-table.h>
 
 #define RT_MAXAREAS 3
-#define RT_MAXREGS 8
-#define RT_MAXWORDS 16 /* per area */
+#define RT_MAXREGS 48
+#define RT_MAXWORDS 64 /* per area */
 
 enum { RT_CB_EVEN = 1, RT_CB_SMALL = 2 };
 
@@ -462,10 +462,13 @@ rt_gen_wellformed(vh_rng *r, struct rt_desc *d, int allow_fail)
     d->nareas = 1 + (int)vh_below(r, 3);
     d->bigendian = (int)vh_below(r, 2);
     uint32_t cursor = bases[vh_below(r, 8)];
+    /* one table in six has one long area densely packed with registers (more than 16, 17, 32 of them in one
+     * area: whatever look-up strategy the library uses for long runs gets exercised) */
+    const int large = vh_chance(r, 1, 6) ? (int)vh_below(r, (uint64_t)d->nareas) : -1;
     for (int i = 0; i < d->nareas; i++) {
         struct rt_area *a = &d->area[i];
         a->base = cursor;
-        a->size = 1 + (uint32_t)vh_below(r, 8);
+        a->size = i == large ? 18 + (uint32_t)vh_below(r, 31) : 1 + (uint32_t)vh_below(r, 8);
         unsigned f = (unsigned)vh_below(r, 20);
         a->readable = !(f == 0 || f == 1);      /* write-only */
         a->writeable = !(f == 2 || f == 3 || f == 4); /* read-only */
@@ -479,8 +482,8 @@ rt_gen_wellformed(vh_rng *r, struct rt_desc *d, int allow_fail)
         uint32_t p = a->base;
         while (p < a->base + a->size && d->nregs < RT_MAXREGS - 2) {
             uint32_t room = a->base + a->size - p;
-            unsigned x = (unsigned)vh_below(r, 10);
-            unsigned words = x < 3 ? 0 : x < 6 ? 1 : x < 8 ? 2 : 4;
+            unsigned x = (unsigned)vh_below(r, i == large ? 30 : 10);
+            unsigned words = x < 3 ? 0 : x < 6 ? 1 : x < 8 ? 2 : x < 10 ? 4 : 1;
             if (words == 0 || words > room) {
                 p++;
                 continue;
